@@ -38,17 +38,16 @@ func (f *ReverseFilter) Filter(input analysis.TokenStream) analysis.TokenStream 
 // unicode array and return it back to its caller.
 func reverse(s []byte) []byte {
 	cursorIn := 0
-	inputRunes := []rune(string(s))
 	cursorOut := len(s)
 	output := make([]byte, len(s))
-	for i := 0; i < len(inputRunes); {
-		wid := utf8.RuneLen(inputRunes[i])
-		i++
-		for i < len(inputRunes) {
-			r := inputRunes[i]
+	for cursorIn < len(s) {
+		// widths are measured on the bytes: an invalid byte decodes to
+		// utf8.RuneError with width 1, not the 3 bytes of an encoded U+FFFD
+		_, wid := utf8.DecodeRune(s[cursorIn:])
+		for cursorIn+wid < len(s) {
+			r, rwid := utf8.DecodeRune(s[cursorIn+wid:])
 			if unicode.Is(unicode.Mn, r) || unicode.Is(unicode.Me, r) || unicode.Is(unicode.Mc, r) {
-				wid += utf8.RuneLen(r)
-				i++
+				wid += rwid
 			} else {
 				break
 			}
